@@ -3,6 +3,7 @@ import itertools
 from usim import Concurrent
 from usim._primitives.context import CancelScope
 from usim._primitives.task import CancelTask
+from usim import TaskCancelled, TaskClosed
 from ..run import run_one
 from ..oracles import kernel_health, describe
 from .. import faults as F
@@ -50,6 +51,10 @@ def act_script(name, d, outcome):
         return [['SCOPE', 'z' + name, [['DO', name + 'x', [['FINALLY', [['D', 9]], [['TRY', [['DO', name + 'y', [['D', 2], ['PROBE', 'now']],
                                                                                                    {'scope': 'z' + name}]]]]]], {'volatile': True}],
                                        ['D', d]]], ['RETURN', name]]
+    if outcome == 'failtc':
+        # fails with the TaskCancelled it receives from awaiting a task that was cancelled (a failure the scope does not report)
+        return [['SCOPE', 'z' + name, [['DO', name + 'x', [['D', 7]]], ['CANCEL', name + 'x', 'tc'], ['D', d], ['AWAIT', name + 'x']]],
+                ['RETURN', name]]
     if outcome == 'nest':
         return s + [['COLLECT', [name + 'x', name + 'y'], [[['D', 3], ['RETURN', 1]], [['D', 3], ['PROBE', 'now'], ['RETURN', 2]]]], ['RETURN', name]]
     raise ValueError(outcome)
@@ -125,6 +130,16 @@ def cases(tier):
             for count in list(range(0, n + 1)) + [None]:
                 for consumer in ('eager', 'break1'):
                     out.append(program('first', acts, count, consumer, start=st))
+    # an activity that fails with a TaskCancelled of a task it awaited
+    tc = [(1, 'failtc'), (0, 'failtc'), (1, 'ok'), (2, 'ok'), (3, 'ok'), (1, 'fail'), (2, 'fail')]
+    for n in (1, 2, 3):
+        for acts in itertools.product(tc, repeat=n):
+            if sum(1 for a in acts if a[1] == 'failtc') != 1 or sum(1 for a in acts if a[1] == 'fail') > 1:
+                continue
+            out.append(program('collect', acts))
+            for count in list(range(0, n + 1)) + [None]:
+                for consumer in ('eager', 'break1'):
+                    out.append(program('first', acts, count, consumer))
     for acts in itertools.product([(1, 'ok'), (2, 'ok'), (2, 'tick')], repeat=2):
         out.append(program('collect', acts, until_now=True))
         out.append(program('first', acts, 2, 'eager', until_now=True))
@@ -174,9 +189,20 @@ def judge(ctx, program, hit_caller=False):
         if failed and priv is not None:
             if fin is None or fin[1] != 'exc' or fin[3] is not priv or fin[2] != failed[0][2]:
                 msgs.append('an activity failed with the privileged %r at %r but collect ended with %r' % (priv, failed[0][2], fin and fin[1:]))
+        elif failed and isinstance(failed[0][3], TaskCancelled):
+            # the first failure is a cancellation that the activity received from a task it awaited: the others are aborted
+            # at that time and the failure is raised (as itself or inside a Concurrent)
+            t_fail, x = failed[0][2], failed[0][3]
+            # (which object is raised is not judged: collect awaits its tasks in argument order and may meet the TaskClosed
+            # of an aborted sibling before the failed activity)
+            if fin is None or fin[1] != 'exc' or not (fin[3] is x or isinstance(fin[3], (Concurrent, TaskCancelled, TaskClosed))):
+                msgs.append('an activity failed at %r with %r but collect ended with %r' % (t_fail, x, fin and fin[1:]))
+            elif fin[2] != t_fail:
+                msgs.append('first failure at %r but collect raised at %r' % (t_fail, fin[2]))
         elif failed:
             t_fail = failed[0][2]
-            F_ = [x for i_, _, t, x in failed if L is None or i_ < L]
+            # (a Concurrent never contains cancellations: the TaskCancelled of an awaited task is not listed)
+            F_ = [x for i_, _, t, x in failed if (L is None or i_ < L) and not isinstance(x, (TaskCancelled, TaskClosed))]
             if fin is None or fin[1] != 'exc' or not isinstance(fin[3], Concurrent):
                 msgs.append('an activity failed at %r but collect ended with %r' % (t_fail, fin and fin[1:]))
             else:
@@ -225,6 +251,9 @@ def judge(ctx, program, hit_caller=False):
             break
         ready = t + body
     nontrivial = nontrivial or k < n
+    # (a contestant that ends with the TaskCancelled of a task it awaited ends the race early; the statement does not say how
+    # first() reports that, so only times, order, containment and kernel health are judged for it)
+    failed_all, failed = failed, [f for f in failed if not isinstance(f[3], TaskCancelled)]
     priv = next((x for i_, _, t, x in failed if isinstance(x, AssertionError)), None)
     if failed and priv is not None and (fin is None or fin[1] == 'exc'):
         if fin is None or fin[3] is not priv:
@@ -238,10 +267,10 @@ def judge(ctx, program, hit_caller=False):
             msgs.append('a contestant failed at %r but first raised at %r' % (t_fail, fin[2]))
     elif fin is not None and fin[1] == 'end':
         need = min(k, limit)
-        nfail_before = [f for f in failed if f[0] < fin[0]]
+        nfail_before = [f for f in failed_all if f[0] < fin[0]]
         if len(got) < need and not nfail_before:
             msgs.append('first ended normally after %d of %d requested results' % (len(got), need))
-        if nfail_before and meta['consumer'] != 'break1' and len(got) < need:
+        if [f for f in nfail_before if not isinstance(f[3], TaskCancelled)] and meta['consumer'] != 'break1' and len(got) < need:
             msgs.append('a contestant failed but first ended normally with %r' % (got,))
     elif fin is None:
         msgs.append('first never ended')
